@@ -161,7 +161,9 @@ def run(ctx):
     if c.get("indexed", 0) == 0:
         missing.append("no error named an item")
     if missing:
-        raise vf.Infra("vacuous run, not exercised: " + "; ".join(missing[:20]))
+        if not ctx.violations:
+            raise vf.Infra("vacuous run, not exercised: " + "; ".join(missing[:20]))
+        ctx.notes.append("not exercised (run has violations): " + "; ".join(missing[:20]))
     for k in ("backend.memory.accepted", "backend.memory.refused", "backend.sqlite.accepted", "backend.sqlite.refused", "indexed",
               "code.queue_full", "evicted.memory", "evicted.sqlite", "pad.1000.accepted", "pad.1001.refused"):
         ctx.count(k, c.get(k, 0))
